@@ -1225,8 +1225,18 @@ package larking
 //@ func (*path).alive serves C11 C12 pure
 //@   requires p != nil
 //@   ensures [node-with-children-is-alive C11] (maplen(p.methods) != 0 || len(p.variables) != 0 || maplen(p.segments) != 0) ==> result
-//@ func (*path).delRule serves C11 C12 partial ghost
+// Unregistering a method removes every binding of it (C11: after a drop no route of the
+// method is left for a later registration to trip over; a method registered again is served
+// by its live backend on every binding): at this node no verb and no "*" binding of the
+// name is left, and every literal child and every variable subtree was searched.
+//@ func (*path).delRule serves C11 C12 partial ghost count post inv.init inv.keep
+//@   returns (ok)
 //@   requires p != nil
+//@   count subcalls `v.next.delRule(`
+//@   ensures [every-literal-subtree-is-searched C11] at every return forall k :: {rangeseen(1, k)} {maphas(p.segments, k)} maphas(p.segments, k) ==> rangeseen(1, k)
+//@   ensures [every-verb-binding-is-looked-at C11] at every return forall k :: {rangeseen(2, k)} {maphas(p.methods, k)} maphas(p.methods, k) ==> rangeseen(2, k)
+//@   ensures [the-star-binding-of-the-method-is-removed C11] at every return p.methodAll != nil ==> p.methodAll.name != name
+//@   witness verifWitnessReconnect
 //@   assert at "delete(p.segments, k)" [prune-only-dead-segments C11] maplen(s.methods) == 0 && len(s.variables) == 0 && maplen(s.segments) == 0
 //@   assert at "p.variables = append(" [prune-only-dead-variables C11] maplen(v.next.methods) == 0 && len(v.next.variables) == 0 && maplen(v.next.segments) == 0
 
